@@ -117,6 +117,9 @@ func (n *Property) Unmarshall(configValue any) error {
 	if configValue == nil {
 		return nil
 	}
+	//decode from a private copy: nested maps and slices are assigned to interface-typed targets as they
+	//are, so the field would otherwise share (and a holder changing its data would alter) the binder's storage
+	configValue = cloneConfigValue(configValue)
 	var hooks = []mapstructure.DecodeHookFunc{
 		mapstructure.StringToTimeDurationHookFunc(),
 	}
@@ -142,6 +145,30 @@ func (n *Property) Unmarshall(configValue any) error {
 		return errors.Wrap(err, "unmarshall property configuration failed")
 	}
 	return nil
+}
+
+func cloneConfigValue(v any) any {
+	switch x := v.(type) {
+	case map[string]any:
+		m := make(map[string]any, len(x))
+		for k, e := range x {
+			m[k] = cloneConfigValue(e)
+		}
+		return m
+	case map[any]any:
+		m := make(map[any]any, len(x))
+		for k, e := range x {
+			m[k] = cloneConfigValue(e)
+		}
+		return m
+	case []any:
+		l := make([]any, len(x))
+		for i, e := range x {
+			l[i] = cloneConfigValue(e)
+		}
+		return l
+	}
+	return v
 }
 
 func newDecodeConfig(v any, hooks []mapstructure.DecodeHookFunc) *mapstructure.DecoderConfig {
